@@ -253,6 +253,7 @@ fn cmd_run(args: &[String]) -> i32 {
     let trace = flag(args, "--trace");
     let trace_file = arg(args, "--trace-file");
     let log = flag(args, "--log");
+    let report_all = flag(args, "--report-all");
     let findings = match arg(args, "--findings") {
         Some(f) => known::Findings::load(&f),
         None => known::Findings::default(),
@@ -292,7 +293,7 @@ fn cmd_run(args: &[String]) -> i32 {
             stats.unclaimed_panics += 1;
         }
         if let Some(at) = res.failed_at {
-            let mine: Vec<&obs::Fail> = res.fails.iter().filter(|f| f.prop == prop).collect();
+            let mine: Vec<&obs::Fail> = res.fails.iter().filter(|f| f.prop == prop || report_all).collect();
             if mine.is_empty() {
                 stats.cut_short_other += 1;
                 for f in &res.fails {
